@@ -48,9 +48,13 @@ fn gen_case(prop: &str, r: &mut Rng) -> Case {
             scope = qn2.clone();
             let n = r.below(4);
             let els: Vec<ST> = (0..n)
-                .map(|_| match r.below(4) {
+                .map(|_| match r.below(6) {
                     0 => ST::Var(r.pick(&qn2).clone()),
                     1 => ST::List(vec![ST::Num(r.range(1, 2) as isize)]),
+                    // an element that is itself the EMPTY list (the iterator's end-of-list look-ahead must look at the TAIL:
+                    // seeded change C12-m stopped after an element `[]`), and a nested list ending in one
+                    2 => ST::List(vec![]),
+                    3 => ST::List(vec![ST::List(vec![]), ST::Num(r.range(1, 2) as isize)]),
                     _ => ST::Num(r.range(1, 3) as isize),
                 })
                 .collect();
@@ -186,6 +190,12 @@ pub fn corpus(prop: &str) -> Vec<MCase> {
                 mkc(vec![vec![v("qa"), v("qa")]], SG::Conj(vec![SG::For("e".into(), 0, vec![two(1)])])),
                 mkc(vec![vec![n(7), n(7), n(3)]], SG::Conj(vec![SG::For("e".into(), 0, vec![SG::Op("conde", vec![vec![SG::Eq(v("qa"), n(5))], vec![SG::Eq(v("e"), v("e"))]])])])),
                 mkc(vec![vec![v("qa"), v("qb"), v("qb")]], SG::Conj(vec![SG::For("e".into(), 0, vec![two(2), SG::Neq(v("e"), n(3))])])),
+                // a body of several clauses one of which (not the first) is the literal `true`: the clauses before it count (C12-k)
+                mkc(vec![vec![n(1), n(2)]], SG::Conj(vec![SG::Op("conde", vec![vec![SG::Eq(v("qa"), n(1))], vec![SG::Eq(v("qa"), n(3))]]), SG::For("e".into(), 0, vec![SG::Neq(v("qa"), v("e")), SG::True])])),
+                mkc(vec![vec![v("qb"), n(2)]], SG::Conj(vec![SG::For("e".into(), 0, vec![SG::Eq(v("qa"), n(4)), SG::True, SG::Neq(v("e"), n(2))])])),
+                // an element `[]` in the middle of the collection: the elements after it count too (C12-m)
+                mkc(vec![vec![n(1), ST::List(vec![]), n(2)]], SG::Conj(vec![SG::Op("conde", vec![vec![SG::Eq(v("qa"), n(1))], vec![SG::Eq(v("qa"), n(2))], vec![SG::Eq(v("qa"), n(3))]]), SG::For("e".into(), 0, vec![SG::Neq(v("qa"), v("e"))])])),
+                mkc(vec![vec![ST::List(vec![]), v("qa")]], SG::Conj(vec![SG::For("e".into(), 0, vec![SG::Neq(v("e"), n(2)), two(1)])])),
             ]
         }
         _ => vec![],
